@@ -85,7 +85,13 @@ func resetWorkingTree(rootGoitPath string, index *store.Index, trackedBefore []s
 	if err := removeObstructingFiles(rootGoitPath, index, trackedBefore); err != nil {
 		return err
 	}
+	rootDir := filepath.Dir(rootGoitPath)
 	for _, entry := range index.Entries {
+		// an empty directory left where the file belongs (e.g. by rm of its last file) is no obstacle
+		filePath := filepath.Join(rootDir, string(entry.Path))
+		if info, err := os.Stat(filePath); err == nil && info.IsDir() {
+			_ = os.Remove(filePath) // fails, harmlessly, when the directory is not empty
+		}
 		obj, err := object.GetObject(rootGoitPath, entry.Hash)
 		if err != nil {
 			return fmt.Errorf("fail to get object: %w", err)
